@@ -1,6 +1,16 @@
-// instrument writes overlay copies of repository packages for the C20 check: a vsched.Yield at the entry of
-// every function that reads or writes a package-level variable which is mutated somewhere in its package, and
-// "sync" replaced by the scheduler-aware vsync. Usage: instrument <outdir> <overlay.json> <importpath=dir>...
+// instrument writes overlay copies of repository packages for the C20 check.
+//
+// Pass 1 (all packages): find the package-level variables that are *mutated at run time* somewhere in the
+// instrumented packages: assigned (also through an index, field, dereference or slice expression), inc/dec'ed,
+// address-taken, sliced (an array variable handed out as a slice), used as the receiver of a method call (pointer
+// receivers mutate; loggers, regexps and the sync/atomic types are exempt because they synchronise internally or
+// are immutable), or passed to copy/append/clear/delete as the destination — in their own package or, qualified
+// with the package name, from another instrumented package.
+// Pass 2: a vsched.Yield("<pkg>.<func>#<n>") in front of every *statement* that reads or writes such a variable
+// (compound statements: in front of the statement when its header does, and inside its blocks), so that a
+// check-then-act or write-then-read sequence inside one function can be interleaved, not only whole functions;
+// "sync" is replaced by the scheduler-aware vsync.
+// Usage: instrument <outdir> <overlay.json> <importpath=dir>...
 package main
 
 import (
@@ -17,14 +27,62 @@ import (
 	"strings"
 )
 
-func rootIdent(e ast.Expr) *ast.Ident {
+type pkgInfo struct {
+	ip, dir string
+	fset    *token.FileSet
+	pkg     *ast.Package
+	pvars   map[string]string // package-level variable -> declared type / initialiser text
+}
+
+var exemptType = []string{"logrus.", "log.Logger", "regexp.", "sync.", "atomic.", "vsync."}
+
+func exprText(fset *token.FileSet, e ast.Expr) string {
+	if e == nil {
+		return ""
+	}
+	var sb strings.Builder
+	printer.Fprint(&sb, fset, e)
+	return sb.String()
+}
+
+// ref names the package-level variable an expression is rooted at: "" if none, "Name" for a variable of the
+// current package, "importpath.Name" for a variable of another package.
+type resolver struct {
+	p       *pkgInfo
+	imports map[string]string // local name -> import path (per file)
+	fset    *token.FileSet
+}
+
+func (r *resolver) isOwnVar(id *ast.Ident) bool {
+	if id == nil {
+		return false
+	}
+	if _, ok := r.p.pvars[id.Name]; !ok {
+		return false
+	}
+	if id.Obj == nil {
+		return true // resolved in another file of the package
+	}
+	_, top := id.Obj.Decl.(*ast.ValueSpec)
+	return top && id.Obj.Kind == ast.Var && r.fset.Position(id.Obj.Pos()).Column <= 5
+}
+
+func (r *resolver) root(e ast.Expr) string {
 	for {
 		switch x := e.(type) {
 		case *ast.Ident:
-			return x
-		case *ast.IndexExpr:
-			e = x.X
+			if r.isOwnVar(x) {
+				return r.p.ip + "." + x.Name
+			}
+			return ""
 		case *ast.SelectorExpr:
+			if id, ok := x.X.(*ast.Ident); ok && id.Obj == nil {
+				if ip, ok := r.imports[id.Name]; ok && !r.isOwnVar(id) {
+					return ip + "." + x.Sel.Name
+				}
+			}
+			e = x.X
+		case *ast.IndexExpr:
 			e = x.X
 		case *ast.StarExpr:
 			e = x.X
@@ -32,10 +90,25 @@ func rootIdent(e ast.Expr) *ast.Ident {
 			e = x.X
 		case *ast.SliceExpr:
 			e = x.X
+		case *ast.TypeAssertExpr:
+			e = x.X
 		default:
-			return nil
+			return ""
 		}
 	}
+}
+
+func fileImports(f *ast.File) map[string]string {
+	m := map[string]string{}
+	for _, im := range f.Imports {
+		p, _ := strconv.Unquote(im.Path.Value)
+		name := p[strings.LastIndex(p, "/")+1:]
+		if im.Name != nil {
+			name = im.Name.Name
+		}
+		m[name] = p
+	}
+	return m
 }
 
 func main() {
@@ -49,140 +122,305 @@ func main() {
 		}
 	}
 	os.MkdirAll(out, 0o755)
-	report := []string{}
+	var pkgs []*pkgInfo
+	allVars := map[string]string{} // qualified name -> type text
 	for _, arg := range os.Args[3:] {
 		ip, dir, _ := strings.Cut(arg, "=")
 		fset := token.NewFileSet()
-		pkgs, err := parser.ParseDir(fset, dir, func(fi os.FileInfo) bool { return !strings.HasSuffix(fi.Name(), "_test.go") }, parser.ParseComments)
+		ps, err := parser.ParseDir(fset, dir, func(fi os.FileInfo) bool { return !strings.HasSuffix(fi.Name(), "_test.go") }, parser.ParseComments)
 		if err != nil {
 			fmt.Fprintln(os.Stderr, "instrument:", err)
 			os.Exit(1)
 		}
-		for _, pkg := range pkgs {
-			// package-level variables
-			pvars := map[string]bool{}
+		for _, pkg := range ps {
+			pi := &pkgInfo{ip: ip, dir: dir, fset: fset, pkg: pkg, pvars: map[string]string{}}
 			for _, f := range pkg.Files {
 				for _, d := range f.Decls {
 					if gd, ok := d.(*ast.GenDecl); ok && gd.Tok == token.VAR {
 						for _, sp := range gd.Specs {
-							for _, n := range sp.(*ast.ValueSpec).Names {
-								pvars[n.Name] = true
-							}
-						}
-					}
-				}
-			}
-			isPkgVar := func(id *ast.Ident) bool {
-				if id == nil || !pvars[id.Name] {
-					return false
-				}
-				if id.Obj == nil {
-					return true // resolved in another file of the package
-				}
-				_, top := id.Obj.Decl.(*ast.ValueSpec)
-				return top && id.Obj.Kind == ast.Var && fset.Position(id.Obj.Pos()).Column <= 5
-			}
-			mutated := map[string]bool{}
-			for _, f := range pkg.Files {
-				for _, d := range f.Decls {
-					fd, ok := d.(*ast.FuncDecl)
-					if !ok || fd.Body == nil || fd.Name.Name == "init" {
-						continue
-					}
-					ast.Inspect(fd.Body, func(n ast.Node) bool {
-						switch s := n.(type) {
-						case *ast.AssignStmt:
-							for _, l := range s.Lhs {
-								if id := rootIdent(l); isPkgVar(id) {
-									mutated[id.Name] = true
+							vs := sp.(*ast.ValueSpec)
+							for i, n := range vs.Names {
+								t := exprText(fset, vs.Type)
+								if i < len(vs.Values) {
+									t += " = " + exprText(fset, vs.Values[i])
 								}
-							}
-						case *ast.IncDecStmt:
-							if id := rootIdent(s.X); isPkgVar(id) {
-								mutated[id.Name] = true
-							}
-						case *ast.UnaryExpr:
-							if s.Op == token.AND {
-								if id := rootIdent(s.X); isPkgVar(id) {
-									mutated[id.Name] = true
-								}
+								pi.pvars[n.Name] = t
+								allVars[ip+"."+n.Name] = t
+								allVars[ip+"."+n.Name+"\x00known"] = "y" // method calls count only on variables whose declaration is visible
 							}
 						}
-						return true
-					})
+					}
 				}
 			}
-			names := []string{}
-			for m := range mutated {
-				names = append(names, m)
+			pkgs = append(pkgs, pi)
+		}
+	}
+	exempt := func(q string) bool {
+		t, known := allVars[q]
+		if !known {
+			return false
+		}
+		for _, e := range exemptType {
+			if strings.Contains(t, e) {
+				return true
 			}
-			sort.Strings(names)
-			for fname, f := range pkg.Files {
-				changed := false
-				usesSched := false
-				for _, d := range f.Decls {
-					fd, ok := d.(*ast.FuncDecl)
-					if !ok || fd.Body == nil || fd.Name.Name == "init" {
-						continue
-					}
-					touches := false
-					ast.Inspect(fd.Body, func(n ast.Node) bool {
-						if se, ok := n.(*ast.SelectorExpr); ok {
-							// only the base of a selector can be a package variable
-							ast.Inspect(se.X, func(m ast.Node) bool {
-								if id, ok := m.(*ast.Ident); ok && isPkgVar(id) && mutated[id.Name] {
-									touches = true
-								}
-								return true
-							})
-							return false
-						}
-						if id, ok := n.(*ast.Ident); ok && isPkgVar(id) && mutated[id.Name] {
-							touches = true
-						}
-						return true
-					})
-					if touches {
-						label := pkg.Name + "." + fd.Name.Name
-						call := &ast.ExprStmt{X: &ast.CallExpr{Fun: &ast.SelectorExpr{X: ast.NewIdent("vsched"), Sel: ast.NewIdent("Yield")}, Args: []ast.Expr{&ast.BasicLit{Kind: token.STRING, Value: strconv.Quote(label)}}}}
-						fd.Body.List = append([]ast.Stmt{call}, fd.Body.List...)
-						changed, usesSched = true, true
-						report = append(report, label)
-					}
-				}
-				for _, im := range f.Imports {
-					if im.Path.Value == `"sync"` {
-						im.Path.Value = `"free5gclib/vsync"`
-						if im.Name == nil {
-							im.Name = ast.NewIdent("sync")
-						}
-						changed = true
-					}
-				}
-				if !changed {
+		}
+		return false
+	}
+	// pass 1: mutated variables (qualified names)
+	mutated := map[string]string{} // name -> first reason
+	mark := func(q, why string) {
+		if q == "" {
+			return
+		}
+		if _, ok := mutated[q]; !ok {
+			mutated[q] = why
+		}
+	}
+	for _, pi := range pkgs {
+		for _, f := range pi.pkg.Files {
+			r := &resolver{p: pi, imports: fileImports(f), fset: pi.fset}
+			for _, d := range f.Decls {
+				fd, ok := d.(*ast.FuncDecl)
+				if !ok || fd.Body == nil || fd.Name.Name == "init" {
 					continue
 				}
-				if usesSched {
-					f.Decls = append([]ast.Decl{&ast.GenDecl{Tok: token.IMPORT, Specs: []ast.Spec{&ast.ImportSpec{Path: &ast.BasicLit{Kind: token.STRING, Value: `"free5gclib/vsched"`}}}}}, f.Decls...)
-				}
-				dst := filepath.Join(out, strings.ReplaceAll(ip, "/", "_")+"_"+filepath.Base(fname))
-				w, err := os.Create(dst)
-				if err != nil {
-					fmt.Fprintln(os.Stderr, err)
-					os.Exit(1)
-				}
-				printer.Fprint(w, fset, f)
-				w.Close()
-				abs, _ := filepath.Abs(fname)
-				overlay[abs] = dst
-			}
-			if len(names) > 0 {
-				fmt.Printf("%s: mutated package-level variables %v\n", ip, names)
+				where := pi.pkg.Name + "." + fd.Name.Name
+				ast.Inspect(fd.Body, func(n ast.Node) bool {
+					switch s := n.(type) {
+					case *ast.AssignStmt:
+						if s.Tok != token.DEFINE {
+							for _, l := range s.Lhs {
+								mark(r.root(l), "assigned in "+where)
+							}
+						}
+					case *ast.IncDecStmt:
+						mark(r.root(s.X), "inc/dec in "+where)
+					case *ast.RangeStmt:
+						if s.Tok == token.ASSIGN {
+							mark(r.root(s.Key), "range-assigned in "+where)
+							if s.Value != nil {
+								mark(r.root(s.Value), "range-assigned in "+where)
+							}
+						}
+					case *ast.UnaryExpr:
+						if s.Op == token.AND {
+							mark(r.root(s.X), "address taken in "+where)
+						}
+					case *ast.SliceExpr:
+						if q := r.root(s.X); q != "" && strings.HasPrefix(strings.TrimSpace(allVars[q]), "[") && !strings.HasPrefix(strings.TrimSpace(allVars[q]), "[]") {
+							// an array variable handed out as a slice: aliasing; only counts when the slice is a call argument or assigned
+							mark(q, "array sliced in "+where)
+						}
+					case *ast.CallExpr:
+						if se, ok := s.Fun.(*ast.SelectorExpr); ok {
+							if q := r.root(se.X); q != "" && !exempt(q) && allVars[q+"\x00known"] == "y" {
+								// method call on (something rooted at) a package-level variable; pkg.Func() is not one
+								if id, isId := se.X.(*ast.Ident); !(isId && id.Obj == nil && r.imports[id.Name] != "" && !r.isOwnVar(id)) {
+									mark(q, "method "+se.Sel.Name+" called in "+where)
+								}
+							}
+						}
+						if id, ok := s.Fun.(*ast.Ident); ok && len(s.Args) > 0 {
+							switch id.Name {
+							case "copy", "append", "clear", "delete":
+								mark(r.root(s.Args[0]), id.Name+" destination in "+where)
+							}
+						}
+					}
+					return true
+				})
 			}
 		}
 	}
+	// pass 2: yields
+	var sites []string
+	for _, pi := range pkgs {
+		for fname, f := range pi.pkg.Files {
+			r := &resolver{p: pi, imports: fileImports(f), fset: pi.fset}
+			touches := func(n ast.Node) bool {
+				if n == nil {
+					return false
+				}
+				hit := false
+				ast.Inspect(n, func(m ast.Node) bool {
+					if hit {
+						return false
+					}
+					switch x := m.(type) {
+					case *ast.SelectorExpr:
+						if q := r.root(x); q != "" {
+							if _, ok := mutated[q]; ok {
+								hit = true
+							}
+							return false
+						}
+					case *ast.Ident:
+						if r.isOwnVar(x) {
+							if _, ok := mutated[pi.ip+"."+x.Name]; ok {
+								hit = true
+							}
+						}
+					case *ast.FuncLit:
+						return false // its body gets its own yields
+					}
+					return true
+				})
+				return hit
+			}
+			changed, usesSched := false, false
+			for _, d := range f.Decls {
+				fd, ok := d.(*ast.FuncDecl)
+				if !ok || fd.Body == nil || fd.Name.Name == "init" {
+					continue
+				}
+				n := 0
+				yield := func() ast.Stmt {
+					n++
+					label := pi.pkg.Name + "." + fd.Name.Name + "#" + strconv.Itoa(n)
+					sites = append(sites, label)
+					return &ast.ExprStmt{X: &ast.CallExpr{Fun: &ast.SelectorExpr{X: ast.NewIdent("vsched"), Sel: ast.NewIdent("Yield")}, Args: []ast.Expr{&ast.BasicLit{Kind: token.STRING, Value: strconv.Quote(label)}}}}
+				}
+				var block func(list []ast.Stmt) []ast.Stmt
+				var stmt func(s ast.Stmt) (before bool)
+				stmt = func(s ast.Stmt) bool {
+					switch x := s.(type) {
+					case *ast.BlockStmt:
+						x.List = block(x.List)
+						return false
+					case *ast.LabeledStmt:
+						return stmt(x.Stmt)
+					case *ast.IfStmt:
+						b := touches(x.Init) || touches(x.Cond)
+						x.Body.List = block(x.Body.List)
+						if x.Else != nil {
+							if stmt(x.Else) {
+								b = true
+							}
+						}
+						return b
+					case *ast.ForStmt:
+						b := touches(x.Init) || touches(x.Cond) || touches(x.Post)
+						x.Body.List = block(x.Body.List)
+						if touches(x.Cond) || touches(x.Post) {
+							x.Body.List = append([]ast.Stmt{yield()}, x.Body.List...)
+						}
+						return b
+					case *ast.RangeStmt:
+						b := touches(x.X) || touches(x.Key) || touches(x.Value)
+						x.Body.List = block(x.Body.List)
+						return b
+					case *ast.SwitchStmt:
+						b := touches(x.Init) || touches(x.Tag)
+						for _, c := range x.Body.List {
+							cc := c.(*ast.CaseClause)
+							for _, e := range cc.List {
+								if touches(e) {
+									b = true
+								}
+							}
+							cc.Body = block(cc.Body)
+						}
+						return b
+					case *ast.TypeSwitchStmt:
+						b := touches(x.Init) || touches(x.Assign)
+						for _, c := range x.Body.List {
+							cc := c.(*ast.CaseClause)
+							cc.Body = block(cc.Body)
+						}
+						return b
+					case *ast.SelectStmt:
+						b := false
+						for _, c := range x.Body.List {
+							cc := c.(*ast.CommClause)
+							if touches(cc.Comm) {
+								b = true
+							}
+							cc.Body = block(cc.Body)
+						}
+						return b
+					default:
+						return touches(s)
+					}
+				}
+				block = func(list []ast.Stmt) []ast.Stmt {
+					var outl []ast.Stmt
+					for _, s := range list {
+						if stmt(s) {
+							outl = append(outl, yield())
+						}
+						outl = append(outl, s)
+					}
+					return outl
+				}
+				fd.Body.List = block(fd.Body.List)
+				// closures
+				ast.Inspect(fd.Body, func(m ast.Node) bool {
+					if fl, ok := m.(*ast.FuncLit); ok {
+						fl.Body.List = block(fl.Body.List)
+					}
+					return true
+				})
+				if n > 0 {
+					changed, usesSched = true, true
+				}
+			}
+			for _, im := range f.Imports {
+				if im.Path.Value == `"sync"` {
+					im.Path.Value = `"free5gclib/vsync"`
+					if im.Name == nil {
+						im.Name = ast.NewIdent("sync")
+					}
+					changed = true
+				}
+			}
+			if !changed {
+				continue
+			}
+			if usesSched {
+				f.Decls = append([]ast.Decl{&ast.GenDecl{Tok: token.IMPORT, Specs: []ast.Spec{&ast.ImportSpec{Path: &ast.BasicLit{Kind: token.STRING, Value: `"free5gclib/vsched"`}}}}}, f.Decls...)
+			}
+			dst := filepath.Join(out, strings.ReplaceAll(pi.ip, "/", "_")+"_"+filepath.Base(fname))
+			w, err := os.Create(dst)
+			if err != nil {
+				fmt.Fprintln(os.Stderr, err)
+				os.Exit(1)
+			}
+			// comments are dropped from the printed copy: statement insertion moves positions and the printer would
+			// otherwise place comments inside expressions; build constraints are re-emitted
+			for _, cg := range f.Comments {
+				for _, c := range cg.List {
+					if strings.HasPrefix(c.Text, "//go:build") && c.Pos() < f.Package {
+						fmt.Fprintln(w, c.Text)
+						fmt.Fprintln(w)
+					}
+				}
+			}
+			f.Comments = nil
+			f.Doc = nil
+			printer.Fprint(w, pi.fset, f)
+			w.Close()
+			abs, _ := filepath.Abs(fname)
+			overlay[abs] = dst
+		}
+	}
+	names := []string{}
+	for m, why := range mutated {
+		names = append(names, m+" ("+why+")")
+	}
+	sort.Strings(names)
+	fmt.Printf("mutated package-level variables: %d\n", len(names))
+	for _, n := range names {
+		fmt.Println("  " + n)
+	}
 	b, _ := json.MarshalIndent(map[string]interface{}{"Replace": overlay}, "", " ")
 	os.WriteFile(ovPath, b, 0o644)
-	sort.Strings(report)
-	fmt.Printf("yield points inserted in %d functions: %v\n", len(report), report)
+	fmt.Printf("yield sites inserted: %d\n", len(sites))
+	ms := []string{}
+	for m := range mutated {
+		ms = append(ms, m)
+	}
+	sort.Strings(ms)
+	js, _ := json.Marshal(map[string]interface{}{"mutated": ms, "sites": len(sites)})
+	os.WriteFile(filepath.Join(out, "instrument.json"), js, 0o644)
 }
